@@ -533,7 +533,7 @@ func (c07) Exec(raw json.RawMessage, st *simrt.Stats, log *simrt.Log) *simrt.Vio
 		st.Nontrivial(simrt.HashString(k))
 		st.State(simrt.HashString(k))
 	}
-	return nil
+	return c07UnprotectedProbe(&p, n, height, st)
 }
 
 func (c07) Shrink(raw json.RawMessage) []json.RawMessage {
@@ -607,25 +607,6 @@ func c07KeyAndForkProbes(p *c07Plan, n *node.Node, height uint64, st *simrt.Stat
 			return viol(i, "tampered-tx-passes-verification", "native-foreign-source", "a transaction signed by one key and declaring another key's address as sender is accepted")
 		}
 	}
-	// a wrapped Ethereum transaction signed the pre-EIP-155 way (v = 27/28: no chain id in the signed
-	// payload, so it is valid on every chain) declared for this chain
-	{
-		e := eth_tx.NewTransaction(0, common.HexToAddress(node.Account(2)), big.NewInt(11), 3000000, big.NewInt(1000000000), []byte{7})
-		signed, err := eth_tx.SignTx(e, eth_tx.HomesteadSigner{}, &node.HarnessKeys[3].SK.PrivKey)
-		if err == nil {
-			enc, _ := rlp.EncodeToBytes(signed)
-			if sender, err := (eth_tx.HomesteadSigner{}).Sender(signed); err == nil {
-				st.Fault("unprotected_eth_tx")
-				for _, cid := range []string{"0", common.ChainId(height)} {
-					tx := eth_tx.ConvertTx(signed, sender, enc)
-					tx.ChainId = cid
-					if verr := n.Pool.VerifyTransaction(tx, height); verr == nil {
-						return viol(0, "tampered-tx-passes-verification", "eth-unprotected-signature-chain-"+map[bool]string{true: "zero", false: "this"}[cid == "0"], "a wrapped Ethereum transaction whose signature does not commit to any chain id (pre-EIP-155, v=27/28) is accepted with declared chain id %q", cid)
-					}
-				}
-			}
-		}
-	}
 	if p.Seed%3 != 0 {
 		return nil
 	}
@@ -675,6 +656,37 @@ func c07KeyAndForkProbes(p *c07Plan, n *node.Node, height uint64, st *simrt.Stat
 		}
 		if pr.signedFor != pr.at && err == nil {
 			return viol(k, "tampered-tx-passes-verification", form+"-chain-id-of-the-other-side-of-the-fork", "a transaction signed for the chain id valid %s the fork height is accepted when verified %s it (probe %d of a seeded order)", pr.signedFor, pr.at, k)
+		}
+	}
+	return nil
+}
+
+// c07UnprotectedProbe runs last (what it finds on the unchanged tree is a known finding and must not hide
+// anything the rest of the plan would report).
+func c07UnprotectedProbe(p *c07Plan, n *node.Node, height uint64, st *simrt.Stats) *simrt.Violation {
+	viol := func(ev int, clause, where, f string, a ...interface{}) *simrt.Violation {
+		return simrt.Violationf("C07", clause, where, ev, f, a...)
+	}
+	if p.Seed%8 != 1 {
+		return nil
+	}
+	// a wrapped Ethereum transaction signed the pre-EIP-155 way (v = 27/28: no chain id in the signed
+	// payload, so it is valid on every chain) declared for this chain
+	{
+		e := eth_tx.NewTransaction(0, common.HexToAddress(node.Account(2)), big.NewInt(11), 3000000, big.NewInt(1000000000), []byte{7})
+		signed, err := eth_tx.SignTx(e, eth_tx.HomesteadSigner{}, &node.HarnessKeys[3].SK.PrivKey)
+		if err == nil {
+			enc, _ := rlp.EncodeToBytes(signed)
+			if sender, err := (eth_tx.HomesteadSigner{}).Sender(signed); err == nil {
+				st.Fault("unprotected_eth_tx")
+				for _, cid := range []string{"0", common.ChainId(height)} {
+					tx := eth_tx.ConvertTx(signed, sender, enc)
+					tx.ChainId = cid
+					if verr := n.Pool.VerifyTransaction(tx, height); verr == nil {
+						return viol(0, "tampered-tx-passes-verification", "eth-unprotected-signature-chain-"+map[bool]string{true: "zero", false: "this"}[cid == "0"], "a wrapped Ethereum transaction whose signature does not commit to any chain id (pre-EIP-155, v=27/28) is accepted with declared chain id %q", cid)
+					}
+				}
+			}
 		}
 	}
 	return nil
